@@ -528,11 +528,10 @@ Definition F_PREUSED := 9%nat.
 Definition F_PNOIDENT := 11%nat. (* the parent object's _ident is (ppid, None) *)
 (* parent() calls _raise_if_pid_reused() itself and again through ppid(): when the first one found the process
    gone (_gone = True) the second raises NoSuchProcess at once -- unless pid == lowest pid returned None before *)
-Definition f_parent :=
-  Call (seqs [ raise_if_pid_reused_of NOW Self FStat F_GONE F_REUSED None
-                 (If (TParam W_ISLOWEST) Ret (Raise (XNSP Self)));
+Definition parent_with (check ppid : prog) :=
+  Call (seqs [ check;
     If (TParam W_ISLOWEST) Ret
-    (seqs [ f_ppid;
+    (seqs [ ppid;
             (* since commit e49a6c9 the age test uses self._ident[1] (no access: the object under test has it) and
                parent._proc.create_time(monotonic=True) *)
             FocusParent;
@@ -543,16 +542,20 @@ Definition f_parent :=
                         SetFlag F_HASPARENT true; Ret ])
                 (handlers [(HNSP, Skip)]) Skip;
             Ret ]) ]).
+Definition f_parent :=
+  parent_with (raise_if_pid_reused_of NOW Self FStat F_GONE F_REUSED None
+                 (If (TParam W_ISLOWEST) Ret (Raise (XNSP Self)))) f_ppid.
 (* parents(): parent(), then parent() of the parent -- which is init, the lowest pid: only its
    _raise_if_pid_reused() touches the OS; since commit 671469c `try: proc = proc.parent() except NoSuchProcess: break`:
    an ancestor that vanished (or whose probe makes it look reused) ends the chain *)
-Definition f_parents :=
-  Call (seqs [ SetFlag F_HASPARENT false; f_parent;
+Definition parents_with (parent : prog) :=
+  Call (seqs [ SetFlag F_HASPARENT false; parent;
                If (TFlag F_HASPARENT)
                   (Try (raise_if_pid_reused_of NOW Other FStatE F_PGONE F_PREUSED (Some F_PNOIDENT) Ret)
                        (handlers [(HNSP, Skip)]) Skip)
                   Skip;
                Ret ]).
+Definition f_parents := parents_with f_parent.
 (* children(recursive=False): _raise_if_pid_reused(); ppid_map(); for each child: Process(child), create times *)
 (* ppid_map(): a pid whose stat cannot be read (gone, or refused since commit 1c63e73) is left out *)
 Definition ppid_map_with (hs : list (hpat * prog)) :=
@@ -570,11 +573,12 @@ Definition children_with (check pmap : prog) :=
 Definition f_children := children_with raise_if_pid_reused ppid_map.
 Definition legacy_f_children := children_with legacy_raise_if_pid_reused (ppid_map_with [(HFnfEsrch, Skip)]).
 (* children(recursive=True): the stack walk; a child that could be queried is appended and pushed *)
-Definition f_children_rec :=
-  Call (seqs [ raise_if_pid_reused; ppid_map;
+Definition children_rec_with (check : prog) :=
+  Call (seqs [ check; ppid_map;
                Walk (Seq (SetFlag F_PUSH false)
                          (Try (Seq child_body (SetFlag F_PUSH true)) (handlers [(HNSP, Skip)]) Skip));
                Ret ]).
+Definition f_children_rec := children_rec_with raise_if_pid_reused.
 
 (* as_dict(attrs): with self.oneshot(): for name in attrs: try meth() except (AccessDenied, ZombieProcess): ad_value *)
 Definition as_dict (ms : list prog) :=
@@ -627,3 +631,26 @@ Definition f_iter (ms : list prog) :=
                                      Call (as_dict ms) ])
                              (handlers [(HNSP, Skip)]) Skip);
                Ret ]).
+
+(* ---- the same front-end calls on an object with a HISTORY: _gone / _pid_reused may have been set by earlier calls
+   (nothing partially evaluated), and the pid may by now belong to ANOTHER process (other start time: world fact
+   W_REUSED, PID reuse).  On a fresh object of an unrecycled pid these behave exactly as the f_ scripts. *)
+Definition W_REUSED := 3%nat.
+Definition h_is_running :=
+  Call (If (TFlag F_GONE) Ret (If (TFlag F_REUSED) Ret
+    (Try (seqs [ new_process Self FStat;
+                 (* self._pid_reused = self != Process(self.pid) *)
+                 If (TFlag F_NOIDENT) Ret
+                    (If (TParam W_REUSED) (Seq (SetFlag F_REUSED true) (Raise (XNSP Self))) Ret) ])
+         (handlers [(HZombie, Ret); (HNSP, Seq (SetFlag F_GONE true) Ret)]) Skip))).
+(* _raise_if_pid_reused(): `if self._gone and not self._pid_reused: raise NoSuchProcess`;
+   `if self._pid_reused or (not self.is_running() and self._pid_reused): raise NoSuchProcess` *)
+Definition h_check :=
+  Seq (If (TFlag F_GONE) (If (TFlag F_REUSED) Skip (Raise (XNSP Self))) Skip)
+      (If (TFlag F_REUSED) (Raise (XNSP Self))
+          (Seq h_is_running (If (TFlag F_REUSED) (Raise (XNSP Self)) Skip))).
+Definition h_ppid := Call (Memo 3 (Seq h_check i_stat_based)).
+Definition h_parent := parent_with h_check h_ppid.
+Definition h_parents := parents_with h_parent.
+Definition h_children := children_with h_check ppid_map.
+Definition h_children_rec := children_rec_with h_check.
